@@ -37,6 +37,10 @@ STRENGTHENED = {
     'C27': 'missed by the pure parser units; a unit that drives the real `ListenOut` on loopback sockets was added.',
     'C31': 'missed at first; the late-completion family (stage 2 arriving after the other side completed) was added.',
     'C32': 'missed at first; a hook-forced late queueing variant was added.',
+    'C15': 'missed at first (the tester tun cannot carry GSO metadata, so no superpacket ever went through a relay); the harness now drives `consumeInsidePacket` with USO superpackets (`TunSendSuper`) and the wire tap checks that no two inner packets share an end-to-end (index, counter). C13 node unit got the same workload and an inner-counter check.',
+    'C34': 'missed at first (an ABBA lock inversion that the stress run did not happen to interleave); the lock-order monitor `kit/verifsync` was added: every mutex of package nebula is instrumented in the build overlay and a cycle in the observed lock-class graph is a violation whether or not the run deadlocked.',
+    'C09-2': 'missed by C09 at first (caught by C28); C09 got dual-certificate peers whose v1/v2 certificates list different address sets, IPv6 traffic to secondary addresses, connection-manager style promotions and local closes, each followed by the audit.',
+    'C05-2': 'missed at first; a trust-reload unit was added (target initiates to a puppet that delays its genuine reply while pki.blocklist / pki.ca are reloaded through the real reload path).',
     'C47': 'missed at first (short inputs were only presented as len==cap slices); short inputs at the front of a larger stale buffer were added.',
 }
 
